@@ -1,7 +1,7 @@
 (* Run/EvalProps.v — per-property projections of the state-machine trace.
    Each property compares only the part of the trace it speaks about, so an
    observable but unrelated rewrite does not alarm properties it does not touch. *)
-Require Export Verif.Run.EvalSM Verif.Model.Monitors Verif.Model.Monitors18 Verif.Model.Monitors2b Verif.Model.Monitors11a Verif.Model.Monitors6r Verif.Model.Monitors5b Verif.Model.Monitors8m Verif.Proofs.Monitor.
+Require Export Verif.Run.EvalSM Verif.Model.Monitors Verif.Model.Monitors18 Verif.Model.Monitors2b Verif.Model.Monitors11a Verif.Model.Monitors6r Verif.Model.Monitors5b Verif.Model.Monitors8m Verif.Model.Monitors10l Verif.Proofs.Monitor.
 Open Scope N_scope.
 
 Definition is_metric (f : metric -> bool) (a : action) : bool := match a with AMetric m => f m | _ => false end.
@@ -76,8 +76,9 @@ Definition mon_c09 (c : smcase) (t : list action) : bool :=
   match c with KSm _ _ _ cup apps e _ _ => accepts step9 (init9 cup apps (e_store e)) t end.
 Definition run_c09 := run_sm proj_c09 mon_c09.
 Definition mon_c10 (c : smcase) (t : list action) : bool :=
-  match c with KSm _ _ _ cup apps _ _ _ =>
-    accepts step10 (init10 cup apps) t && accepts step6ids {| i_in := false; i_sess := None; i_reqs := [] |} t end.
+  match c with KSm _ cfg url cup apps _ _ _ =>
+    accepts step10 (init10 cup apps) t && accepts step6ids {| i_in := false; i_sess := None; i_reqs := [] |} t
+    && accepts step10l (init10l cfg url cup apps) t end.
 Definition run_c10 := run_sm proj_c10 mon_c10.
 Definition mon_c12 (c : smcase) (t : list action) : bool := accepts step12 init12 t.
 Definition run_c12 := run_sm proj_c12 mon_c12.
